@@ -38,7 +38,8 @@ fn main() {
         Some("worker") => {
             // deep graphs recurse in the library's backward pass: give the worker a large stack
             let a = args[2..].to_vec();
-            let h = std::thread::Builder::new().stack_size(1 << 30).spawn(move || cmd_worker(&a)).unwrap();
+            let mb: usize = std::env::var("CVH_STACK_MB").ok().and_then(|s| s.parse().ok()).unwrap_or(1024);
+            let h = std::thread::Builder::new().stack_size(mb << 20).spawn(move || cmd_worker(&a)).unwrap();
             h.join().unwrap_or(4)
         }
         Some("replay") => {
@@ -57,12 +58,18 @@ fn main() {
             2
         }
     };
-    std::process::exit(code);
+    // return normally on success so that leak checkers (Miri, LSan) run their exit-time checks
+    if code != 0 {
+        std::process::exit(code);
+    }
 }
 
 fn run_cases(def: &CheckDef, ctx: &mut Ctx, shard: u64, nshards: u64, progress: Option<&Path>) {
     let fams = (def.families)(ctx.tier);
+    // sanitizer stages run a prefix of every family (orders of magnitude slower per case)
+    let limit: Option<u64> = std::env::var("CVH_LIMIT").ok().and_then(|s| s.parse().ok());
     for (fam, count) in fams {
+        let count = limit.map_or(count, |l| count.min(l));
         for k in 0..count {
             if k % nshards != shard {
                 continue;
